@@ -61,17 +61,21 @@ impl HasKey<PkeSecret> for V1 {
     fn decode(bytes: &[u8]) -> Result<PkeSecretKey, PasetoError> {
         use rsa::pkcs1::{DecodeRsaPrivateKey, EncodeRsaPrivateKey};
 
-        let key = if let Ok(key) = rsa::RsaPrivateKey::from_pkcs1_der(bytes) {
-            // only the canonical DER encoding is accepted, so that one key has one PASERK string
-            let der = key.to_pkcs1_der();
-            if !der.is_ok_and(|der| der.as_bytes() == bytes) {
-                return Err(PasetoError::InvalidKey);
-            }
-            key
+        let (key, is_der) = if let Ok(key) = rsa::RsaPrivateKey::from_pkcs1_der(bytes) {
+            (key, true)
         } else {
             let s = str::from_utf8(bytes).map_err(|_| PasetoError::InvalidKey)?;
-            rsa::RsaPrivateKey::from_pkcs1_pem(s).map_err(|_| PasetoError::InvalidKey)?
+            let key = rsa::RsaPrivateKey::from_pkcs1_pem(s).map_err(|_| PasetoError::InvalidKey)?;
+            (key, false)
         };
+
+        // a key that cannot be written back as PKCS#1 (e.g. prime1 == prime2) is not usable: `encode`
+        // would panic. A DER input must also be the canonical encoding, so that one key has one
+        // PASERK string.
+        let der = key.to_pkcs1_der().map_err(|_| PasetoError::InvalidKey)?;
+        if is_der && der.as_bytes() != bytes {
+            return Err(PasetoError::InvalidKey);
+        }
 
         if key.n().bits() != 4096 {
             return Err(PasetoError::InvalidKey);
